@@ -28,6 +28,7 @@ Definition E_NO_MATCH : Z := 2.       (* match oracle has no entry *)
 Definition E_NO_SAMPLE : Z := 3.      (* sample oracle exhausted / index out of range *)
 Definition E_BAD_CODE : Z := 4.       (* Cats[c] KeyError *)
 Definition E_GROUP_COUNT : Z := 5.    (* number of groups differs from the number of fragments *)
+Definition E_FUEL : Z := 6.           (* the extraction loop did not end within the model's bound (never: PipelineProofs.run_extractor_fuel) *)
 
 (* ------------------------------------------------------------------ options *)
 Record ropts := {
@@ -545,13 +546,15 @@ Record loop_out := {
   lo_samples_left : nat;
   lo_last_failures : list str }.  (* failures reported by the last check *)
 
+(* Extractor.extract's `while True` loop: sampled attempts first, then unsampled passes until a check adds nothing.
+   The fuel is the model's bound on the number of passes; running out is reported as E_FUEL, and
+   PipelineProofs.run_extractor_fuel proves it cannot happen with the fuel run_extractor supplies. *)
 Fixpoint extract_loop (fuel : nat) (ct : chartab) (o : ropts) (e : str) (stripped : bool)
          (gt : groups_table) (mt : match_table) (all : examples)
          (samples : list (list nat)) (ex : examples) (attempt : Z)
-         (last : list (list frag) * list str * list Z * list str)
   : res (list (list frag) * list str * list Z * list str * examples * list (list nat) * Z) :=
   match fuel with
-  | O => Ok (last, ex, samples, attempt - 1)
+  | O => Err E_FUEL
   | S fuel' =>
     do br <- batch_extract ct o e stripped gt ex;
     let '(merged, rex) := br in
@@ -570,11 +573,11 @@ Fixpoint extract_loop (fuel : nat) (ct : chartab) (o : ropts) (e : str) (strippe
       | _ =>
         if Z.leb (Z.of_nat (List.length fresh)) (z_do_all_exceptions o) || Z.ltb (z_max_sampled_attempts o) attempt then
           let ex' := {| ex_strings := ex_strings ex ++ map fst fresh; ex_freqs := ex_freqs ex ++ map snd fresh |} in
-          extract_loop fuel' ct o e stripped gt mt all samples1 ex' (attempt + 1) now
+          extract_loop fuel' ct o e stripped gt mt all samples1 ex' (attempt + 1)
         else
           do ps <- take_sample samples1 fresh;
           let ex' := {| ex_strings := ex_strings ex ++ map fst (fst ps); ex_freqs := ex_freqs ex ++ map snd (fst ps) |} in
-          extract_loop fuel' ct o e stripped gt mt all (snd ps) ex' (attempt + 1) now
+          extract_loop fuel' ct o e stripped gt mt all (snd ps) ex' (attempt + 1)
       end
     end
   end.
@@ -591,7 +594,7 @@ Definition run_extractor (ct : chartab) (o : ropts) (gt : groups_table) (mt : ma
   | [] => Ok {| lo_rex := []; lo_none := true; lo_examples := ex; lo_passes := 0;
                 lo_samples_left := List.length samples1; lo_last_failures := [] |}
   | _ =>
-    do r <- extract_loop (Z.to_nat (z_max_sampled_attempts o + 2)) ct o e stripped gt mt all samples1 ex 1 ([], [], [], []);
+    do r <- extract_loop (Z.to_nat (z_max_sampled_attempts o) + List.length (ex_strings all) + 2) ct o e stripped gt mt all samples1 ex 1;
     let '(merged, rex, re_freqs, lastfail, ex', samples2, passes) := r in
     let bad := find_bad_patterns o re_freqs in
     let keep := filter (fun i => negb (mem_nat i bad)) (seq 0 (List.length rex)) in
